@@ -537,7 +537,8 @@ fn live_tokio(tier: &str, seed: u64) -> Vec<Case> {
                         // a discovery also answers queries about its own instance: hundreds of questions for its large TXT
                         // record ask for a reply no datagram can carry (the send fails; the listener goes on)
                         let own_name = Name::new_unchecked("me._verif14t._tcp.local");
-                        for k in [400usize, 1400] { let _ = sock.send_to(&amplification_query(&own_name, k), dest); }
+                        nap(250).await; // let the listener drain what was sent so far: the queries must not be dropped by a full receive buffer
+                        for k in [400usize, 1400, 400] { let _ = sock.send_to(&amplification_query(&own_name, k), dest); nap(60).await; }
                         nap(150).await;
                         let deadline = Instant::now() + Duration::from_secs(8);
                         let mut found = false;
@@ -774,7 +775,8 @@ fn live_discovery(tier: &str, seed: u64) -> Case {
     // a discovery also answers queries about its own instance: hundreds of questions for its large TXT record ask for
     // a reply no datagram can carry (the send fails; the listener goes on)
     let own_name = Name::new_unchecked("me._verif14d._tcp.local");
-    for k in [400usize, 1400] { let _ = sock.send_to(&amplification_query(&own_name, k), dest); }
+    std::thread::sleep(Duration::from_millis(250)); // let the listener drain what was sent so far
+    for k in [400usize, 1400, 400] { let _ = sock.send_to(&amplification_query(&own_name, k), dest); std::thread::sleep(Duration::from_millis(60)); }
     std::thread::sleep(Duration::from_millis(150));
     let deadline = Instant::now() + Duration::from_secs(8);
     let mut found = false;
